@@ -69,6 +69,31 @@ fn run(ctx: &mut Ctx) {
     ctx.bound("space", format!("buffer lengths 0..=96 (thorough: 0..=288), 8192-{r}..=8192+{r}, 16384-16..=16384+16; no magic, or first magic at every offset within {p} bytes of the buffer start / of offset 8192 / of the buffer end; stored length word in {{0,8,16,24,0x10010,L-i-8,L-i-1,L-i,L-i+1,0xFFFFFFFF}}; a second magic {{none, 8 bytes earlier, 5 bytes earlier, 16 bytes later}}; zero filler; buffer 8-aligned, flush against a PROT_NONE guard page when its length is a multiple of 8 and otherwise at most 7 bytes before it, those slack bytes varied between two fills", r = if quick { 40 } else { 136 }, p = if quick { 24 } else { 72 }));
     let arena = Arena::new(6);
     scan_automaton(ctx, &arena);
+    // large buffers and large stored lengths (the specification's 32 KiB header limit, 16-bit and 20-bit boundaries)
+    let bigl: Vec<usize> = if quick { vec![32768 + 16, 65536 + 8, 1 << 20] } else { vec![32768 - 8, 32768, 32768 + 16, 65536 - 8, 65536, 65536 + 8, 65543, 1 << 20, (1 << 20) + 24] };
+    ctx.bound("large_buffers", format!("buffer lengths {:?}; magic at offset {{0, 8, 4096, 8184}}; stored length in {{L-i, L-i-8, L-i+8, 32760, 32768, 32776, 65528, 65536, 65544, 16}}", bigl));
+    let big = Arena::new(270);
+    for &l in &bigl {
+        for at in [0usize, 8, 4096, 8184] {
+            let rest = (l - at) as u32;
+            let mut stored: Vec<u32> = vec![rest, rest - 8, rest + 8, 32760, 32768, 32776, 65528, 65536, 65544, 16];
+            stored.dedup();
+            for st in stored {
+                let describe = || J::obj().set("part", "large_buffers").set("buffer_len", l).set("magic_at", at).set("stored_length_word", st);
+                ctx.leaf(describe, |ctx| {
+                    ctx.state_direct();
+                    ctx.nontrivial();
+                    let mut img = vec![0u8; l];
+                    for (i, b) in img.iter_mut().enumerate().skip(at + 16) {
+                        *b = (i % 251) as u8 | 1; // never a magic byte sequence: D6 50 52 E8 needs an even byte
+                    }
+                    img[at..at + 4].copy_from_slice(&MAGIC_LE);
+                    wr32(&mut img, at + 8, st);
+                    exec_image(ctx, &big, &img);
+                });
+            }
+        }
+    }
     for l in lens(quick) {
         // case 0: no magic at all
         let mut cases: Vec<(Option<usize>, u32, u8)> = vec![(None, 0, 0)];
@@ -180,6 +205,10 @@ fn run(ctx: &mut Ctx) {
     }
 }
 
+fn show(img: &[u8]) -> String {
+    if img.len() <= 96 { json::hex(img) } else { format!("{}.. ({} bytes)", json::hex(&img[..48]), img.len()) }
+}
+
 /// One find_header call on an exact image; shared by the structured and the exhaustive-alphabet bodies.
 fn exec_image(ctx: &mut Ctx, arena: &Arena, img: &[u8]) {
     let l = img.len();
@@ -192,14 +221,14 @@ fn exec_image(ctx: &mut Ctx, arena: &Arena, img: &[u8]) {
     match r {
         Out::Panic => {
             ctx.ob("fh.panic", 1);
-            ctx.violation("c13/scan/panic", || format!("find_header panicked on {} (expected {:?})", json::hex(img), exp));
+            ctx.violation("c13/scan/panic", || format!("find_header panicked on {} (expected {:?})", show(img), exp));
         }
         Out::Val(Ok(None)) => {
             ctx.ob("fh.none", 1);
             if exp == Exp::NoHeader {
                 ctx.class("scan:none");
             } else {
-                ctx.violation("c13/scan/missed", || format!("find_header reports no header in {} but the magic occurs (expected {:?})", json::hex(img), exp));
+                ctx.violation("c13/scan/missed", || format!("find_header reports no header in {} but the magic occurs (expected {:?})", show(img), exp));
             }
         }
         Out::Val(Err(_)) => {
@@ -207,7 +236,7 @@ fn exec_image(ctx: &mut Ctx, arena: &Arena, img: &[u8]) {
             if exp == Exp::Error {
                 ctx.class("scan:error");
             } else {
-                ctx.violation("c13/scan/spurious-error", || format!("find_header returned an error on {}, expected {:?}", json::hex(img), exp));
+                ctx.violation("c13/scan/spurious-error", || format!("find_header returned an error on {}, expected {:?}", show(img), exp));
             }
         }
         Out::Val(Ok(Some((off, len, idx)))) => {
@@ -215,7 +244,7 @@ fn exec_image(ctx: &mut Ctx, arena: &Arena, img: &[u8]) {
             ctx.ob("fh.len", len as u64);
             match exp {
                 Exp::Found { at, len: elen } if at == off && at == idx as usize && elen == len => ctx.class("scan:found"),
-                _ => ctx.violation("c13/scan/wrong-result", || format!("find_header returned [{}..{}) index {} on {}, expected {:?}", off, off + len, idx, json::hex(img), exp)),
+                _ => ctx.violation("c13/scan/wrong-result", || format!("find_header returned [{}..{}) index {} on {}, expected {:?}", off, off + len, idx, show(img), exp)),
             }
         }
     }
